@@ -51,7 +51,7 @@ func genC12(seed uint64, tier string) *plan.Plan {
 	horizon := int64(0)
 	for c := 0; c < nc; c++ {
 		op := plan.Op{K: "client", T: c, A: int64(r.IntN(50)), B: int64(1 + r.IntN(8)), C: int64(1 + r.IntN(3)), D: int64(r.IntN(20000)),
-			S: []string{"close", "close", "abort", "stay", "mute", "badhello"}[r.IntN(6)]}
+			S: []string{"close", "close", "abort", "stay", "mute", "badhello", "trickle"}[r.IntN(7)]}
 		if r.IntN(3) == 0 {
 			op.D = 0 // burst
 		}
@@ -335,6 +335,13 @@ func runC12(pl *plan.Plan, out *plan.Outcome) {
 				return
 			}
 			env.Sleep(time.Millisecond)
+			if op.S == "trickle" && tr != 1 {
+				// the stream ends 1-3 bytes into a next message, with an orderly close (FIN / close_notify):
+				// everything before it was a whole message and is delivered
+				write([]byte{0, 10, 0, 40}[:1+op.T%3])
+				env.Count("fault.orderly_close_inside_a_message_header", 1)
+				env.Sleep(time.Millisecond)
+			}
 			Block("close", func() { conn.Close() })
 			finished[op.T] = true
 		})
